@@ -126,10 +126,12 @@ class GraphConstructor(object):
             else:
                 nodes[node.id] = node
             target_nodes.append(node)
+        # Note that the nodes must be added even when the event
+        # has no objects for the other end of the relation.
+        for node in source_nodes + target_nodes:
+            self._graph.add(node)
         for source_node in source_nodes:
-            self._graph.add(source_node)
             for target_node in target_nodes:
-                self._graph.add(target_node)
                 source_node.link_relation(target_node, relation)
         return nodes
 
